@@ -6,9 +6,16 @@
 mod rec;
 
 use ant_evm::{PaymentQuote, ProofOfPayment, QuotingMetrics, RewardsAddress};
+use ant_protocol::error::Error as ProtocolError;
+use ant_protocol::messages::{ChunkProof, Cmd, CmdResponse, Query, QueryResponse, Request, Response};
 use ant_protocol::storage::{
-    try_deserialize_record, try_serialize_record, Chunk, RecordHeader, RecordKind, Scratchpad, Transaction,
+    try_deserialize_record, try_serialize_record, Chunk, ChunkAddress, RecordHeader, RecordKind, RecordType, Scratchpad,
+    ScratchpadAddress, Transaction, TransactionAddress,
 };
+use ant_protocol::NetworkAddress;
+use ant_registers::RegisterAddress;
+use libp2p::identity::Keypair;
+use libp2p::Multiaddr;
 use ant_registers::{Permissions, Register, RegisterCrdt, RegisterOp, SignedRegister};
 use bytes::Bytes;
 use libp2p::kad::{Record, RecordKey};
@@ -335,8 +342,155 @@ fn op_headers() -> Value {
     json!({"headers": out})
 }
 
+// ---------------------------------------------------------------- request / response messages
+fn peer(i: u64) -> libp2p::PeerId {
+    let mut seed = [0u8; 32];
+    seed[..8].copy_from_slice(&(i + 1).to_le_bytes());
+    seed[31] = 0x5a;
+    Keypair::ed25519_from_bytes(seed).expect("seed").public().to_peer_id()
+}
+
+fn addr_of(v: &Value) -> NetworkAddress {
+    match v["t"].as_str().unwrap() {
+        "peer" => NetworkAddress::from_peer(peer(v["i"].as_u64().unwrap())),
+        "chunk" => NetworkAddress::from_chunk_address(ChunkAddress::new(XorName(arr32(&v["x"])))),
+        "tx" => NetworkAddress::from_transaction_address(TransactionAddress::new(XorName(arr32(&v["x"])))),
+        "reg" => NetworkAddress::from_register_address(RegisterAddress::new(XorName(arr32(&v["x"])), sk(v["i"].as_u64().unwrap()).public_key())),
+        "pad" => NetworkAddress::from_scratchpad_address(ScratchpadAddress::new(sk(v["i"].as_u64().unwrap()).public_key())),
+        "key" => NetworkAddress::from_record_key(&RecordKey::new(&hexv(&v["x"]))),
+        other => panic!("address kind {other}"),
+    }
+}
+
+fn record_type_of(v: &Value) -> RecordType {
+    match v["t"].as_str().unwrap() {
+        "chunk" => RecordType::Chunk,
+        "pad" => RecordType::Scratchpad,
+        _ => RecordType::NonChunk(XorName(arr32(&v["x"]))),
+    }
+}
+
+fn error_of(v: &Value) -> ProtocolError {
+    match v["e"].as_str().unwrap() {
+        "ChunkDoesNotExist" => ProtocolError::ChunkDoesNotExist(addr_of(&v["a"])),
+        "RegisterNotFound" => ProtocolError::RegisterNotFound(Box::new(RegisterAddress::new(XorName(arr32(&v["x"])), sk(1).public_key()))),
+        "RegisterAlreadyClaimed" => ProtocolError::RegisterAlreadyClaimed(sk(v["i"].as_u64().unwrap()).public_key()),
+        "RegisterRecordNotFound" => ProtocolError::RegisterRecordNotFound { holder: Box::new(addr_of(&v["a"])), key: Box::new(addr_of(&v["b"])) },
+        "ReplicatedRecordNotFound" => ProtocolError::ReplicatedRecordNotFound { holder: Box::new(addr_of(&v["a"])), key: Box::new(addr_of(&v["b"])) },
+        "GetStoreQuoteFailed" => ProtocolError::GetStoreQuoteFailed,
+        "QuoteGenerationFailed" => ProtocolError::QuoteGenerationFailed,
+        "RecordHeaderParsingFailed" => ProtocolError::RecordHeaderParsingFailed,
+        "RecordParsingFailed" => ProtocolError::RecordParsingFailed,
+        "ScratchpadCipherTextInvalid" => ProtocolError::ScratchpadCipherTextInvalid,
+        _ => ProtocolError::UserDataDirectoryNotObtainable,
+    }
+}
+
+fn res_of<T>(v: &Value, ok: impl FnOnce(&Value) -> T) -> Result<T, ProtocolError> {
+    if v.get("e").is_some() { Err(error_of(v)) } else { Ok(ok(v)) }
+}
+
+fn proofs_of(v: &Value) -> Vec<(NetworkAddress, Result<ChunkProof, ProtocolError>)> {
+    v.as_array().unwrap().iter()
+        .map(|p| (addr_of(&p[0]), res_of(&p[1], |x| ChunkProof::new(&payload(&x["data"]), x["nonce"].as_u64().unwrap()))))
+        .collect()
+}
+
+fn request_of(v: &Value) -> Request {
+    match v["m"].as_str().unwrap() {
+        "Replicate" => Request::Cmd(Cmd::Replicate {
+            holder: addr_of(&v["holder"]),
+            keys: v["keys"].as_array().unwrap().iter().map(|k| (addr_of(&k[0]), record_type_of(&k[1]))).collect(),
+        }),
+        "PeerConsideredAsBad" => Request::Cmd(Cmd::PeerConsideredAsBad {
+            detected_by: addr_of(&v["a"]), bad_peer: addr_of(&v["b"]),
+            bad_behaviour: String::from_utf8(hexv(&v["text"])).expect("utf8"),
+        }),
+        "GetStoreQuote" => Request::Query(Query::GetStoreQuote { key: addr_of(&v["a"]), nonce: v["nonce"].as_u64(), difficulty: v["n"].as_u64().unwrap() as usize }),
+        "GetReplicatedRecord" => Request::Query(Query::GetReplicatedRecord { requester: addr_of(&v["a"]), key: addr_of(&v["b"]) }),
+        "GetRegisterRecord" => Request::Query(Query::GetRegisterRecord { requester: addr_of(&v["a"]), key: addr_of(&v["b"]) }),
+        "GetChunkExistenceProof" => Request::Query(Query::GetChunkExistenceProof { key: addr_of(&v["a"]), nonce: v["nonce"].as_u64().unwrap(), difficulty: v["n"].as_u64().unwrap() as usize }),
+        "CheckNodeInProblem" => Request::Query(Query::CheckNodeInProblem(addr_of(&v["a"]))),
+        "GetClosestPeers" => Request::Query(Query::GetClosestPeers {
+            key: addr_of(&v["a"]), num_of_peers: v["n"].as_u64().map(|n| n as usize),
+            range: if v["range"].is_null() { None } else { Some(arr32(&v["range"])) }, sign_result: v["sign"].as_bool().unwrap(),
+        }),
+        other => panic!("request {other}"),
+    }
+}
+
+fn response_of(v: &Value) -> Response {
+    match v["m"].as_str().unwrap() {
+        "Replicate" => Response::Cmd(CmdResponse::Replicate(res_of(&v["r"], |_| ()))),
+        "PeerConsideredAsBad" => Response::Cmd(CmdResponse::PeerConsideredAsBad(res_of(&v["r"], |_| ()))),
+        "GetStoreQuote" => Response::Query(QueryResponse::GetStoreQuote {
+            quote: res_of(&v["r"], |x| proof_of(&json!([x["q"]])).peer_quotes.remove(0).1),
+            peer_address: addr_of(&v["a"]), storage_proofs: proofs_of(&v["proofs"]),
+        }),
+        "CheckNodeInProblem" => Response::Query(QueryResponse::CheckNodeInProblem {
+            reporter_address: addr_of(&v["a"]), target_address: addr_of(&v["b"]), is_in_trouble: v["flag"].as_bool().unwrap(),
+        }),
+        "GetReplicatedRecord" => Response::Query(QueryResponse::GetReplicatedRecord(res_of(&v["r"], |x| (addr_of(&x["a"]), Bytes::from(payload(&x["data"])))))),
+        "GetRegisterRecord" => Response::Query(QueryResponse::GetRegisterRecord(res_of(&v["r"], |x| (addr_of(&x["a"]), Bytes::from(payload(&x["data"])))))),
+        "GetChunkExistenceProof" => Response::Query(QueryResponse::GetChunkExistenceProof(proofs_of(&v["proofs"]))),
+        "GetClosestPeers" => Response::Query(QueryResponse::GetClosestPeers {
+            target: addr_of(&v["a"]),
+            peers: v["peers"].as_array().unwrap().iter().map(|p| (addr_of(&p[0]),
+                p[1].as_array().unwrap().iter().map(|m| m.as_str().unwrap().parse::<Multiaddr>().expect("multiaddr")).collect())).collect(),
+            signature: if v["sig"].is_null() { None } else { Some(hexv(&v["sig"])) },
+        }),
+        other => panic!("response {other}"),
+    }
+}
+
+/// the two functions libp2p's request_response::cbor codec is made of (its Codec type is private)
+fn cbor_roundtrip<T: Serialize + DeserializeOwned + PartialEq>(x: &T, cap: usize) -> Value {
+    let data = cbor4ii::serde::to_vec(Vec::new(), x).expect("cbor encode");
+    let back: Result<T, _> = cbor4ii::serde::from_slice(&data);
+    let rmp = rmp_serde::to_vec(x).expect("rmp encode");
+    let rmp_back: Result<T, _> = rmp_serde::from_slice(&rmp);
+    let mut out = json!({
+        "cbor_len": data.len(), "cbor_within_cap": data.len() <= cap,
+        "cbor_rt": matches!(&back, Ok(y) if y == x), "cbor_ok": back.is_ok(),
+        "rmp": hex::encode(&rmp), "rmp_rt": matches!(&rmp_back, Ok(y) if y == x),
+        "cbor": if data.len() <= 4096 { json!(hex::encode(&data)) } else { Value::Null },
+    });
+    match rec::tree(x) {
+        Ok(t) => out["tree"] = t,
+        Err(e) => out["tree_err"] = json!(e.0),
+    }
+    out
+}
+
+fn op_msg(case: &Value) -> Value {
+    if case["ty"].as_str().unwrap() == "request" {
+        cbor_roundtrip(&request_of(&case["v"]), 1024 * 1024)
+    } else {
+        cbor_roundtrip(&response_of(&case["v"]), 10 * 1024 * 1024)
+    }
+}
+
+/// arbitrary bytes through the CBOR decoders of both message types
+fn op_msg_decode(case: &Value) -> Value {
+    let b = hexv(&case["bytes"]);
+    let rq: Result<Request, _> = cbor4ii::serde::from_slice(&b);
+    let rs: Result<Response, _> = cbor4ii::serde::from_slice(&b);
+    // what decodes must encode back to something that decodes to the same value
+    let rq_stable = rq.as_ref().ok().map(|x| {
+        let again = cbor4ii::serde::to_vec(Vec::new(), x).expect("encode");
+        matches!(cbor4ii::serde::from_slice::<Request>(&again), Ok(y) if y == *x)
+    });
+    let rs_stable = rs.as_ref().ok().map(|x| {
+        let again = cbor4ii::serde::to_vec(Vec::new(), x).expect("encode");
+        matches!(cbor4ii::serde::from_slice::<Response>(&again), Ok(y) if y == *x)
+    });
+    json!({"request_ok": rq.is_ok(), "response_ok": rs.is_ok(), "request_stable": rq_stable, "response_stable": rs_stable})
+}
+
 fn run(case: &Value) -> Value {
     match case["op"].as_str().unwrap() {
+        "msg" => op_msg(case),
+        "msg_decode" => op_msg_decode(case),
         "record" => op_record(case),
         "decode" => op_decode(case),
         "sweep" => op_sweep(),
